@@ -1191,6 +1191,14 @@ func ruleC12Clock(cx *Ctx) {
 func ruleC10WrapLoad(cx *Ctx) {
 	const rule = "C10.wrapload"
 	cx.R.Rule(rule, 2, "wrapLoad returns the error of the dispatch it wraps unchanged on every returning path (a constant nil only where that error was tested nil) and panics only with the panic error extracted from it - a failed load returns the loader's error")
+	if cx.P.Func("", "cache", "wrapLoad") == nil {
+		if rec := loadRecorder(cx); rec != nil {
+			// split form (start / finish pair): the finishing half returns the error it is handed, and every dispatch's
+			// error is handed to it
+			ruleC20LoadSplit(cx, rule, rec)
+			return
+		}
+	}
 	wl := cx.need(rule, "", "cache", "wrapLoad")
 	if wl == nil {
 		return
